@@ -61,12 +61,12 @@ CLAIMED["C07"] = dict(
     technique="Coq proof (master step-machine invariant) + message-level correspondence + exhaustive injection-point sweep with Coq oracle",
     ref="5/C07")
 CLAIMED["C09"] = dict(
-    text="The flat wiring equivalent to a nesting is a Coq function (flatten). Proved for every configuration: its devices are exactly those the nested model visits, in order; a configuration without systems is its own flattening; in the initial tick the nested model updates exactly the flattened device list (C09_flat_devices, C09_flat_identity, C09_initial_transparent). Proved for whole runs (C09_inline_transparent): for every configuration made of top-level devices and one system simulation holding devices (any number of devices, any single-source wiring through external/exposed ports; the scope is decided by the Coq function shape_of), every device family that reports each output port at most once and reads its inputs as a dictionary (the harness's table devices are proved to be one, C09_inline_transparent_table), every initial time, horizon and number of master ticks, the nested run and the run with the system replaced by its contents perform the same device updates in the same order at the same simulation times with equal inputs, callbacks of inner and outer devices included - a lockstep simulation between the two masters whose invariant relates the system's entry in the top-level wakeup table to the earliest inner wakeup. Beyond that scope (depth > 1, sibling systems, pass-through ports, interrupts, pacing) transparency is decided per PAIR of runs of the real schedulers: every generated nesting (depth <= 3, siblings, pass-through ports, systems without inputs/outputs, callbacks, interrupts) is run nested and flat, Coq checks that the harness's flat configuration IS the flattening (73), that inside the theorem's scope the inlined configuration is that flattening too (74), and that every device observes the same sequence of times and inputs (71), besides both runs agreeing with Model/Sim.v and Model/SimTime.v.",
-    note=TB + "the virtual-time event loop. PARTIAL: the whole-run theorem covers one system simulation of devices at the top level, in simulation time without interrupts (Model/SimTime.v, compared with the master model and the real master on every generated case without stimuli); deeper nestings, sibling systems, wires straight from an external to an exposed port and interrupts are pairwise-tested.",
+    text="The flat wiring equivalent to a nesting is a Coq function (flatten). Proved for every configuration: its devices are exactly those the nested model visits, in order; a configuration without systems is its own flattening; in the initial tick the nested model updates exactly the flattened device list (C09_flat_devices, C09_flat_identity, C09_initial_transparent). Proved for whole runs (C09_inline_transparent): for every configuration made of top-level devices and one system simulation holding devices (any number of devices, any single-source wiring through external/exposed ports; the scope is decided by the Coq function shape_of), every device family that reports each output port at most once and reads its inputs as a dictionary (the harness's table devices are proved to be one, C09_inline_transparent_table), every initial time, horizon and number of master ticks, the nested run and the run with the system replaced by its contents perform the same device updates in the same order at the same simulation times with equal inputs, callbacks of inner and outer devices included - a lockstep simulation between the two masters whose invariant relates the system's entry in the top-level wakeup table to the earliest inner wakeup; the same holds for the real-time master model at speed 1 (C09_inline_transparent_master: Model/SimTime.v is proved equal to Model/Sim.v's master there for every configuration, nested or not). Beyond that scope (depth > 1, sibling systems, pass-through ports, interrupts, pacing) transparency is decided per PAIR of runs of the real schedulers: every generated nesting (depth <= 3, siblings, pass-through ports, systems without inputs/outputs, callbacks, interrupts) is run nested and flat, Coq checks that the harness's flat configuration IS the flattening (73), that inside the theorem's scope the inlined configuration is that flattening too (74), and that every device observes the same sequence of times and inputs (71), besides both runs agreeing with Model/Sim.v and Model/SimTime.v.",
+    note=TB + "the virtual-time event loop. PARTIAL: the whole-run theorem covers one system simulation of devices at the top level, without interrupts, at speed 1 where real time is involved; deeper nestings, sibling systems, wires straight from an external to an exposed port and interrupts are pairwise-tested.",
     technique="Coq proof (flattening; lockstep simulation between nested and inlined runs) + paired whole-simulation runs compared in Coq",
     ref="5/C09")
 CLAIMED["C10"] = dict(
-    text="Coq theorems: topics of different components never coincide and no input topic is an output topic, over constants re-extracted from the source each run (C10_topics_disjoint); a device update touches only that device's state and a component outside a tick's extent is untouched (C10_update_frame, C10_outside_extent_untouched); a nested tick touches only the devices and schedulers of its own subtree and depends only on that subtree's part of the state and configuration (C10_system_footprint, C10_system_depends_on_subtree_only); one whole tick, and whole runs from start-up in simulation time, of a simulation whose top level holds devices and system simulations (any depth) and of the same simulation extended at the top level by a disconnected part X - devices and whole system simulations of any depth, any behaviour, their own callbacks causing extra and merged ticks - give every base device at every depth exactly the same observation sequence and leave the base's state equal (C10_tick_noninterference, C10_run_noninterference: a stuttering simulation proved for every configuration and device behaviour), transferred to the real-time master model at speed 1 for flat simulations (C10_master_noninterference: Model/SimTime.v is proved equal to it there and compared with it on every applicable generated case, code 55). With interrupts, real-time pacing and adapters non-interference is decided per pair of runs of the real classes: configuration vs configuration + disconnected devices/system simulations (91), probe adapters notified exactly once per own update, the shipped EpicsAdapter/CommandAdapter driven without network; topic collisions are also searched directly on the real topic functions.",
+    text="Coq theorems: topics of different components never coincide and no input topic is an output topic, over constants re-extracted from the source each run (C10_topics_disjoint); a device update touches only that device's state and a component outside a tick's extent is untouched (C10_update_frame, C10_outside_extent_untouched); a nested tick touches only the devices and schedulers of its own subtree and depends only on that subtree's part of the state and configuration (C10_system_footprint, C10_system_depends_on_subtree_only); one whole tick, and whole runs from start-up in simulation time, of a simulation whose top level holds devices and system simulations (any depth) and of the same simulation extended at the top level by a disconnected part X - devices and whole system simulations of any depth, any behaviour, their own callbacks causing extra and merged ticks - give every base device at every depth exactly the same observation sequence and leave the base's state equal (C10_tick_noninterference, C10_run_noninterference: a stuttering simulation proved for every configuration and device behaviour), transferred to the real-time master model at speed 1 (C10_master_noninterference: Model/SimTime.v is proved equal to it there for every configuration, nested or not, whose devices never ask to be called back in the past, and compared with it on every applicable generated case, code 55). With interrupts, real-time pacing and adapters non-interference is decided per pair of runs of the real classes: configuration vs configuration + disconnected devices/system simulations (91), probe adapters notified exactly once per own update, the shipped EpicsAdapter/CommandAdapter driven without network; topic collisions are also searched directly on the real topic functions.",
     note=TB + "the virtual-time event loop, a stub for softioc's builder. PARTIAL: the run-level theorem is about simulation time without interrupts and about parts added at the top level; a part added inside a system simulation, interrupts, pacing and adapters are pairwise-tested. Integer speeds only in the pairs (rounding of the real-time deadline may differ by 1 ns otherwise, which is not an observation of any device).",
     technique="Coq proof (topic injectivity, frame and footprint/agreement lemmas of the nested model, tick-level relation, stuttering simulation over whole runs) + paired whole-simulation runs compared in Coq + adapter-level differential runs",
     ref="5/C10")
